@@ -256,8 +256,14 @@ func makeAccumulatorFunc(expr parser.ItemType) (newAccumulatorFunc, error) {
 					mean, cMean = function.KahanSumInc(delta/count, mean, cMean)
 					aux, cAux = function.KahanSumInc(delta*(v-(mean+cMean)), aux, cAux)
 				},
-				ValueFunc: func() float64 { return math.Sqrt((aux + cAux) / count) },
-				HasValue:  func() bool { return hasValue },
+				ValueFunc: func() float64 {
+					// Once the sum overflowed, the compensation term is NaN.
+					if math.IsInf(aux, 0) {
+						return math.Sqrt(aux / count)
+					}
+					return math.Sqrt((aux + cAux) / count)
+				},
+				HasValue: func() bool { return hasValue },
 				Reset: func(_ float64) {
 					hasValue = false
 					count = 0
@@ -288,8 +294,14 @@ func makeAccumulatorFunc(expr parser.ItemType) (newAccumulatorFunc, error) {
 					mean, cMean = function.KahanSumInc(delta/count, mean, cMean)
 					aux, cAux = function.KahanSumInc(delta*(v-(mean+cMean)), aux, cAux)
 				},
-				ValueFunc: func() float64 { return (aux + cAux) / count },
-				HasValue:  func() bool { return hasValue },
+				ValueFunc: func() float64 {
+					// Once the sum overflowed, the compensation term is NaN.
+					if math.IsInf(aux, 0) {
+						return aux / count
+					}
+					return (aux + cAux) / count
+				},
+				HasValue: func() bool { return hasValue },
 				Reset: func(_ float64) {
 					hasValue = false
 					count = 0
